@@ -251,10 +251,10 @@ type runner struct {
 	dir      string
 	srv      *lrsrv.Srv
 	opts     lrsrv.Opts
-	seq      []int   // next sequence number per source
-	written  [][]ev  // acknowledged events per source, in write order (one writer per source at a time)
-	created  []int   // events per source at creation
-	deleted  []int   // events per source at deletion (-1 = not deleted)
+	seq      []int  // next sequence number per source
+	written  [][]ev // acknowledged events per source, in write order (one writer per source at a time)
+	created  []int  // events per source at creation
+	deleted  []int  // events per source at deletion (-1 = not deleted)
 	destTags string
 	lines    []string // model driver requests
 	pipeLive bool
@@ -372,17 +372,54 @@ func caughtUp(srv *lrsrv.Srv, name string) bool {
 }
 
 // quiesce waits until the pipe has copied everything it was notified about and its partition stopped growing.
+// settled: every descriptor is caught up with what it was notified about, and — for a live pipe — every source the pipe
+// listens to (reference evaluation of S) that was written after the creation has a descriptor standing at the end of the
+// stored data. (A fixed sleep or "stable for 100 ms" is not enough on a loaded machine: the notificator or a worker can be
+// late by hundreds of milliseconds.) A defect that keeps a position from advancing makes this wait run into its cap; the
+// comparisons afterwards report it.
+func (r *runner) settled() bool {
+	if !caughtUp(r.srv, r.h.Name) {
+		return false
+	}
+	if !r.pipeLive || r.created == nil {
+		return true
+	}
+	ds, ok := r.srv.Pipes.VerifC10Descs(r.h.Name)
+	if !ok {
+		return true
+	}
+	for i, t := range r.h.Sources {
+		r.mu.Lock()
+		nw := len(r.written[i])
+		r.mu.Unlock()
+		if !r.h.S.eval(t) || nw <= r.created[i] {
+			continue
+		}
+		found := false
+		for _, d := range ds {
+			if d.Tags == tagLine(t) {
+				found = globalIdx(r.srv, tagLine(t), d.Pos) == nw
+			}
+		}
+		if !found {
+			return false
+		}
+	}
+	return true
+}
+
+// quiesce waits until the pipe is settled and its partition has not grown for a number of consecutive polls (long cap).
 func (r *runner) quiesce() {
 	r.srv.FlushWait()
-	deadline := time.Now().Add(8 * time.Second)
+	deadline := time.Now().Add(12 * time.Second)
 	last, stable := -1, 0
-	need := 5
+	need := 6
 	if !r.pipeLive {
-		need = 12
+		need = 15
 	}
 	for time.Now().Before(deadline) {
 		n := r.destCount()
-		if n == last && caughtUp(r.srv, r.h.Name) {
+		if n == last && r.settled() {
 			stable++
 			if stable >= need {
 				return
@@ -409,7 +446,49 @@ func fieldsWithProv(orig, tl string) string {
 }
 
 // runHistory executes h on a fresh server and evaluates SPEC; the MODEL lines are answered afterwards in batch.
+// report of one execution of a history (nothing goes to the result file before the wrapper has classified it)
+type execReport struct {
+	fails []vh.SpecFailure
+	mms   []vh.Mismatch
+}
+
+// runHistory executes h and reports. A loss that has the shape of finding F34 (library tail-reader race: the saved position
+// jumped over events that were never copied; everything else intact) is schedule-dependent by nature: the history is
+// executed once more, and the loss is attributed to F34 only if it does NOT reproduce — a defect of the pipe code that
+// loses events (a wrong start position, a skipped portion of a split write …) fails again and stays unattributed.
 func runHistory(h *history, sec *vh.Section, section string) {
+	rp := execHistory(h, sec, section, false)
+	cand := false
+	for _, f := range rp.fails {
+		if f.Kind == "tail-skip" {
+			cand = true
+		}
+	}
+	if cand {
+		again := execHistory(h, sec, section, true)
+		if len(again.fails) > 0 || len(again.mms) > 0 {
+			for i := range rp.fails {
+				if rp.fails[i].Kind == "tail-skip" {
+					rp.fails[i].Kind, rp.fails[i].Finding, rp.fails[i].ImplEqModel = "lost-event", "", false
+					rp.fails[i].What += " — the loss reproduces when the same history is executed again, so it is not the schedule-dependent library race"
+				}
+			}
+			rp.fails = append(rp.fails, again.fails...)
+			rp.mms = append(rp.mms, again.mms...)
+		} else {
+			res.Dist(sec, "F34-shaped loss, not reproduced by a second execution")
+		}
+	}
+	for _, f := range rp.fails {
+		res.SpecFail(f)
+	}
+	for _, m := range rp.mms {
+		res.Mismatch(m)
+	}
+}
+
+func execHistory(h *history, sec *vh.Section, section string, quiet bool) (rp *execReport) {
+	rp = &execReport{}
 	r := &runner{h: h, dir: lrsrv.NewDir()}
 	defer os.RemoveAll(r.dir)
 	// a slow flush keeps a starting worker's first end-of-data check away from the confirmation of the batch that
@@ -418,7 +497,7 @@ func runHistory(h *history, sec *vh.Section, section string) {
 	srv, err := lrsrv.Start(r.dir, r.opts)
 	if err != nil {
 		res.Note("%s: %v", section, err)
-		return
+		return rp
 	}
 	r.srv = srv
 	defer func() { r.srv.Stop() }()
@@ -437,17 +516,19 @@ func runHistory(h *history, sec *vh.Section, section string) {
 		r.lines = append(r.lines, fmt.Sprintf("src %d %s %s", i, b01(h.S.eval(t)), vh.HxS(","+tagLine(t))))
 	}
 	fail := func(kind, what, impl, spec string, finding string, eq bool) {
-		res.SpecFail(vh.SpecFailure{Section: section, Kind: kind, Input: h, Impl: impl, Spec: spec, What: what, Finding: finding, ImplEqModel: eq})
+		rp.fails = append(rp.fails, vh.SpecFailure{Section: section, Kind: kind, Input: h, Impl: impl, Spec: spec, What: what, Finding: finding, ImplEqModel: eq})
 	}
 	firstAfterCreate := map[int]bool{}
 	for _, o := range h.Ops {
-		res.Dist(sec, "op="+o.Kind)
+		if !quiet {
+			res.Dist(sec, "op="+o.Kind)
+		}
 		switch o.Kind {
 		case "write":
 			evs := r.mkEvents(o.Src, o.N, o.Fields)
 			if err := r.write(o.Src, evs, o.Via); err != nil {
 				res.Note("%s: write failed: %v", section, err)
-				return
+				return rp
 			}
 			r.modelWrite(o.Src, evs)
 			if r.pipeLive && !firstAfterCreate[o.Src] && !h.NoFirstQ {
@@ -508,7 +589,7 @@ func runHistory(h *history, sec *vh.Section, section string) {
 			}
 			if err != nil {
 				fail("create-failed", "creating the pipe failed", err.Error(), "created", "", false)
-				return
+				return rp
 			}
 			d, err := r.srv.Pipes.GetPipe(h.Name)
 			if err == nil {
@@ -539,7 +620,7 @@ func runHistory(h *history, sec *vh.Section, section string) {
 			srv, err := lrsrv.Start(r.dir, r.opts)
 			if err != nil {
 				fail("restart-refused", "the server must start again after a clean stop", err.Error(), "starts", "", false)
-				return
+				return rp
 			}
 			r.srv = srv
 			r.lines = append(r.lines, "shutdown", "halt", "restart")
@@ -556,7 +637,7 @@ func runHistory(h *history, sec *vh.Section, section string) {
 		dest, err = readAll(r.srv, "select from "+r.destTags)
 		if err != nil {
 			res.Note("%s: reading the pipe partition failed: %v", section, err)
-			return
+			return rp
 		}
 	}
 	proj := make([][]ev, ns)
@@ -579,7 +660,7 @@ func runHistory(h *history, sec *vh.Section, section string) {
 		stored, err := readAll(r.srv, "select from {"+tagLine(t)+"}")
 		if err != nil || len(stored) != len(r.written[i]) {
 			res.Note("%s: source %d holds %d events, %d were acknowledged (err=%v) — C01's business, case skipped", section, i, len(stored), len(r.written[i]), err)
-			return
+			return rp
 		}
 		if !h.S.eval(t) {
 			continue
@@ -613,11 +694,15 @@ func runHistory(h *history, sec *vh.Section, section string) {
 		_, gerr := r.srv.Pipes.GetPipe(h.Name)
 		implLive, modelLive := gerr == nil, strings.HasPrefix(ans[len(ans)-2*ns-1], "live")
 		if implLive != modelLive {
-			res.Mismatch(vh.Mismatch{Section: section, Function: "pipe registry at the end of the history", Input: h, Impl: fmt.Sprintf("exists=%v", implLive), Model: ans[len(ans)-2*ns-1]})
+			rp.mms = append(rp.mms, vh.Mismatch{Section: section, Function: "pipe registry at the end of the history", Input: h, Impl: fmt.Sprintf("exists=%v", implLive), Model: ans[len(ans)-2*ns-1]})
 		}
 	}
 	// saved positions: after the final quiescence the descriptor of every source the live pipe listens to stands at the
 	// end of what is stored — also when the last events were rejected by the filter (they are read once, not re-scanned)
+	posAtEnd := make([]bool, ns) // the saved position of the source stands at the end of the stored data (or cannot be known)
+	for i := range posAtEnd {
+		posAtEnd[i] = true
+	}
 	if r.pipeLive {
 		ds, _ := r.srv.Pipes.VerifC10Descs(h.Name)
 		for i, t := range h.Sources {
@@ -633,8 +718,9 @@ func runHistory(h *history, sec *vh.Section, section string) {
 				modelPos = m[0]
 			}
 			if implPos != modelPos {
-				res.Mismatch(vh.Mismatch{Section: section, Function: fmt.Sprintf("ppDesc.Pos of source %d at the final quiescence (global record index)", i), Input: h, Impl: implPos, Model: modelPos})
+				rp.mms = append(rp.mms, vh.Mismatch{Section: section, Function: fmt.Sprintf("ppDesc.Pos of source %d at the final quiescence (global record index)", i), Input: h, Impl: implPos, Model: modelPos})
 			}
+			posAtEnd[i] = implPos == strconv.Itoa(len(r.written[i]))
 			if implPos != "none" && implPos != strconv.Itoa(len(r.written[i])) {
 				fail("position-not-advanced", fmt.Sprintf("source %d (%s): at quiescence the pipe's saved position is not the end of the stored data (events the filter rejects must be passed, not re-scanned)", i, tagLine(t)),
 					implPos, strconv.Itoa(len(r.written[i])), "", implPos == modelPos)
@@ -648,8 +734,8 @@ func runHistory(h *history, sec *vh.Section, section string) {
 		if canonModel(m) != impl {
 			implEqModel = false
 			// a difference that is a known schedule-dependent loss is classified below; everything else is a mismatch
-			if kind, _ := classifyLoss(proj[i], expected[i]); kind == "" {
-				res.Mismatch(vh.Mismatch{Section: section, Function: fmt.Sprintf("pipe LTS, source %d: content of the pipe partition", i), Input: h, Impl: clip(impl), Model: clip(canonModel(m))})
+			if kind, _ := classifyLoss(proj[i], expected[i]); kind == "" || !posAtEnd[i] {
+				rp.mms = append(rp.mms, vh.Mismatch{Section: section, Function: fmt.Sprintf("pipe LTS, source %d: content of the pipe partition", i), Input: h, Impl: clip(impl), Model: clip(canonModel(m))})
 			}
 		}
 	}
@@ -663,15 +749,27 @@ func runHistory(h *history, sec *vh.Section, section string) {
 	if nExp > 0 && len(h.Ops) >= 3 {
 		key = fmt.Sprintf("%s|%s|%v|%d", h.S.lql(), h.F.lql(), h.Ops, h.Chunk)
 	}
-	res.Eval(sec, key)
-	res.Dist(sec, fmt.Sprintf("S=%s", h.S.Kind))
-	res.Dist(sec, fmt.Sprintf("F=%s", h.F.Kind))
-	res.Dist(sec, fmt.Sprintf("via=%s", h.Via))
+	if !quiet {
+		res.Eval(sec, key)
+	}
+	if !quiet {
+		res.Dist(sec, fmt.Sprintf("S=%s", h.S.Kind))
+	}
+	if !quiet {
+		res.Dist(sec, fmt.Sprintf("F=%s", h.F.Kind))
+	}
+	if !quiet {
+		res.Dist(sec, fmt.Sprintf("via=%s", h.Via))
+	}
 	if h.Chunk > 0 {
-		res.Dist(sec, "tiny-chunks")
+		if !quiet {
+			res.Dist(sec, "tiny-chunks")
+		}
 	}
 	if h.Others {
-		res.Dist(sec, "another-pipe-exists")
+		if !quiet {
+			res.Dist(sec, "another-pipe-exists")
+		}
 	}
 	if foreign > 0 {
 		fail("foreign-event", "the pipe partition holds events that came from no source of the history", fmt.Sprint(foreign), "0", "", false)
@@ -690,16 +788,22 @@ func runHistory(h *history, sec *vh.Section, section string) {
 		}
 		ref := expected[i]
 		kind, finding := classifyLoss(proj[i], ref)
+		if !posAtEnd[i] {
+			kind = "" // the copy is not finished or the position is stuck: not a jump over events
+		}
 		switch kind {
 		case "tail-skip":
-			fail("tail-skip", in+"one contiguous run of events inside one chunk was never copied (reader at the tail stepped over freshly confirmed records)",
+			fail("tail-skip", in+fmt.Sprintf("the pipe's saved position stands at the end of the source, yet %d of its events in %d contiguous run(s) were never copied; everything else is there once, in order, unaltered (a reader at the tail stepped over freshly confirmed records)", len(ref)-len(proj[i]), missingRuns(proj[i], ref)),
 				clip(projLine(proj[i])), clip(projLine(ref)), finding, true)
 		default:
 			fail(diffKind(proj[i], ref), in+"the pipe partition differs from the events written after creation to a matching source that satisfy the filter (once, stored order, ts/msg unchanged, tags appended as fields)",
 				clip(projLine(proj[i])), clip(projLine(ref)), "", implEqModel)
 		}
 	}
-	res.Sample(map[string]interface{}{"section": section, "pipe": h.Name, "S": h.S.lql(), "F": h.F.lql(), "ops": len(h.Ops), "events": nEv, "expected_in_pipe": nExp})
+	if !quiet {
+		res.Sample(map[string]interface{}{"section": section, "pipe": h.Name, "S": h.S.lql(), "F": h.F.lql(), "ops": len(h.Ops), "events": nEv, "expected_in_pipe": nExp})
+	}
+	return rp
 }
 
 func b01(b bool) string {
@@ -745,27 +849,39 @@ func canonModel(m string) string {
 	return strings.Join(ps, " ")
 }
 
-// classifyLoss recognises the narrow class of finding F34 (library tail-reader race): got is want with exactly one
-// contiguous run missing, the run does not start at the beginning of the data (that would be a start-position problem),
-// everything after the run is present, nothing duplicated or altered.
+// classifyLoss recognises the shape of finding F34 (library tail-reader race): got is want with one or more contiguous
+// runs missing — a strict subsequence in the same order, nothing duplicated, added or altered. (The callers add the two
+// other parts of the class: the saved position stands at the end of the source — a jump, not an unfinished copy —, and
+// the loss does not reproduce when the history is executed again — schedule-dependent, not a defect of the pipe code.)
 func classifyLoss(got, want []ev) (kind, finding string) {
 	if len(got) >= len(want) || len(want) == 0 {
 		return "", ""
 	}
-	i := 0
-	for i < len(got) && got[i] == want[i] {
-		i++
-	}
-	if i == 0 {
-		return "", ""
-	}
-	miss := len(want) - len(got)
-	for k := i; k < len(got); k++ {
-		if got[k] != want[k+miss] {
+	j := 0
+	for _, g := range got {
+		for j < len(want) && want[j] != g {
+			j++
+		}
+		if j == len(want) {
 			return "", ""
 		}
+		j++
 	}
 	return "tail-skip", "F34"
+}
+
+func missingRuns(got, want []ev) int {
+	runs, j, in := 0, 0, false
+	for _, w := range want {
+		if j < len(got) && got[j] == w {
+			j++
+			in = false
+		} else if !in {
+			runs++
+			in = true
+		}
+	}
+	return runs
 }
 
 func diffKind(got, want []ev) string {
@@ -1052,6 +1168,33 @@ func waitDest(srv *lrsrv.Srv, destTags string, n int, d time.Duration) int {
 	}
 }
 
+// settle polls until every descriptor of the pipe is caught up, its descriptor dump and the size of its partition have not
+// changed for a number of consecutive polls (long cap: a loaded machine delays the notificator and the workers).
+func settle(srv *lrsrv.Srv, name, _ string, destTags string) {
+	srv.FlushWait()
+	deadline := time.Now().Add(10 * time.Second)
+	last, stable := "", 0
+	for time.Now().Before(deadline) {
+		ds, _ := srv.Pipes.VerifC10Descs(name)
+		dl := make([]string, len(ds))
+		for i, d := range ds {
+			dl[i] = fmt.Sprint(d.Src, d.Pos, d.LastKnwnPos, d.Charged)
+		}
+		sort.Strings(dl)
+		cur := fmt.Sprintf("%d|%v", waitDest(srv, destTags, 0, 0), dl)
+		if cur == last && caughtUp(srv, name) {
+			stable++
+			if stable >= 12 {
+				return
+			}
+		} else {
+			stable = 0
+		}
+		last = cur
+		time.Sleep(20 * time.Millisecond)
+	}
+}
+
 func mkEvs(prefix string, from, n int) []ev {
 	out := make([]ev, n)
 	for i := range out {
@@ -1116,11 +1259,10 @@ func runParkedWriter(c parkedCase, sec *vh.Section) {
 		return
 	}
 	// a live worker (late-notification variant) is woken by the flush and copies without any notification
-	srv.FlushWait()
 	if pre > 0 {
-		waitDest(srv, destTags, pre+c.A, 2*time.Second)
+		waitDest(srv, destTags, pre+c.A, 8*time.Second)
 	}
-	time.Sleep(50 * time.Millisecond)
+	settle(srv, name, tl, destTags)
 	step("write 0 "+evsLine(evA), "wcopy 0 1000000", "wsave 0")
 	obs()
 	// writer B: complete write, its notification overtakes A's
@@ -1128,26 +1270,32 @@ func runParkedWriter(c parkedCase, sec *vh.Section) {
 	if err := r.write(0, evB, "direct"); err != nil {
 		res.Note("parked: write B: %v", err)
 	}
-	srv.FlushWait()
 	want := pre + c.A + c.B // what SPEC demands in the pipe partition at the end
 	// the worker copies what B's notification covers (and, when a descriptor existed, everything it sees)
-	waitDest(srv, destTags, want, 500*time.Millisecond)
-	time.Sleep(50 * time.Millisecond)
+	if pre > 0 {
+		waitDest(srv, destTags, want, 8*time.Second)
+	} else {
+		waitDest(srv, destTags, c.B, 8*time.Second)
+	}
+	settle(srv, name, tl, destTags)
 	step("write 0 "+evsLine(evB), "enqueue 1", "notify", "wopen 0", "wcopy 0 1000000", "wsave 0")
 	obs()
 	// release A: its notification arrives late
 	close(gA.release)
 	<-doneA
-	srv.FlushWait()
-	time.Sleep(100 * time.Millisecond)
+	settle(srv, name, tl, destTags)
 	step("enqueue 0", "notify")
 	obs()
 	// a later write: only it is copied, nothing of the lost batch arrives
 	evC := mkEvs("c", pre+c.A+c.B, 1)
 	r.write(0, evC, "direct")
 	want++
-	waitDest(srv, destTags, want, 600*time.Millisecond)
-	time.Sleep(50 * time.Millisecond)
+	if pre > 0 {
+		waitDest(srv, destTags, want, 8*time.Second)
+	} else {
+		waitDest(srv, destTags, c.B+1, 8*time.Second)
+	}
+	settle(srv, name, tl, destTags)
 	step("write 0 "+evsLine(evC), "enqueue 0", "notify", "wcopy 0 1000000", "wsave 0")
 	obs()
 	dest, _ := readAll(srv, "select from "+destTags)
@@ -1535,9 +1683,8 @@ func runRacingFirst(k int, sec *vh.Section) {
 		}
 	}
 	wg.Wait()
-	srv.FlushWait()
 	waitDest(srv, destTags, nsrc*k*3, 1500*time.Millisecond)
-	time.Sleep(100 * time.Millisecond)
+	settle(srv, "rf", "", destTags)
 	dest, _ := readAll(srv, "select from "+destTags)
 	got := map[string]int{}
 	for _, e := range dest {
